@@ -22,7 +22,7 @@ def _run_variant(args):
         dst = os.path.join(tmp, "repo")
         shutil.copytree(core.REPO, dst, ignore=shutil.ignore_patterns(".git", "__pycache__", ".ruff_cache", ".benchmarks", "*.egg-info", "img", "oneliner_tests"))
         if files and files[0][0] == "<patch>":
-            r = subprocess.run(["patch", "-p1", "-s", "-i", files[0][1]], cwd=dst, capture_output=True, text=True)
+            r = subprocess.run(["patch", "-p1", "-s", "--no-backup-if-mismatch", "-i", files[0][1]], cwd=dst, capture_output=True, text=True)
             if r.returncode != 0:
                 return mid, "stale", "seeded patch no longer applies (the repository changed)"
             files = []
